@@ -10,6 +10,18 @@ Model: lean/MlModel/Model/Strategy.lean (driver handler "strategy"); theorems: P
 Case: {kind: dict|scalar, data: [batch = [row = [x,y] | [x]]], items: [op | {"agg": kind}], src: seq|rr|plain,
        strategies: [strategy, ...]}   — strategies[0] is the sequential baseline (see lib_c03 for the format).
 Observation: one dict per strategy {err, phase?, out: [batch of rows], aggs: {A<i>: result}} or {hang: true}.
+
+Round 7 adds two case families (harness/lib_c03x.py; a case of a family carries "fam"):
+  fam = "sizes"   {n, strat}: a stream of n elements, n straddling every integer constant read off the SOURCE of the
+                  working tree, pushed with the producer AHEAD of the consumer through an IteratorQueue consumed by
+                  iter(q) / get_batch(), the in-process interleaved runner (2-3 stages, unbounded / bounded stage queues)
+                  and num_threads; model: Model/DequeueCache.lean (driver "dequeuecache"), theorems C03_cache_*.
+  fam = "sliced"  {sub, parts, strat}: a SLICED aggregation (C02-format pipeline) run shard by shard over any partition
+                  of the batches, the shard states (different key sets) merged by ChainedRunner / TransformRunner /
+                  AGGREGATE-mode runner; oracle: brute-force group-by over the whole data + equality with the unsharded
+                  run; model: Model/PipeAggShard.lean (driver "pipeaggshard"), theorems C03_shards_sliced*.
+  fam = "pool"    {items: [{sub, k, workers}]}: the same sliced pipelines through orchestrate.sharded_pipelines_as_iterator over a
+                  worker pool on harness/fakecourier (harness/lib_c16x.py, run in its own process) — the C16 path of the same merge.
 """
 import collections
 import copy
@@ -18,6 +30,7 @@ import os
 import re
 
 from harness import lib_c03 as L
+from harness import lib_c03x as X
 from harness.core import close
 
 PID = 'C03'
@@ -30,7 +43,13 @@ TRUSTED = [
     'that every element is eventually put and delivered (liveness) is C04Live/C13, here a hypothesis of QueueDelivers',
     'aggregates are abstract lawful mergeable metrics (Lemmas/AggCore.lean); that MeanAndVariance is one is C01/C11; '
     'the correspondence uses exact integer moments (count,sum,sum of squares) and compares mean/variance with tolerance',
-    'tree key routing (input_keys/output_keys), slicing (add_slice) and error skipping are outside this model (C08, C02, C12)',
+    'tree key routing (input_keys/output_keys), slicing (add_slice) and error skipping are outside the Strategy model (C08, C02, C12); '
+    'sharded x sliced runs are modelled by Model/PipeAggShard.lean on top of the C02 model (Model/PipeAgg.lean)',
+    'the DequeueIterator cache (Model/DequeueCache.lean) is composed with the queue LTS through its `received` list: the '
+    'boundaries of the get_batch results are a free parameter of C03_stage_runner_cached (any cut into non-empty refills); '
+    'collections.deque(maxlen) semantics (extend drops from the left) is the model\'s reading of the CPython documentation',
+    'size-dependent behaviour: the integer constants are read off the source by harness/lib_c03x.constants() (every int '
+    'literal 2..20000 of iter_utils.py, orchestrate.py, transform.py, io.py); a bound computed at run time from other data is not seen',
 ]
 ASSUMPTIONS = ['user callables are pure, vectorised and come from the named library of harness/lib_c03.py (twin in Driver/Strategy.lean)',
                'pipelines with a re-batching operator have no element-level filter after it (its outcome would depend on batch '
@@ -42,7 +61,21 @@ RULE = ('corpus (witness cases of F18 and F-C03-fuse) first; then random pipelin
         'chain = fuse / new-name chain = stage, including refused ones and the all-chained one), num_threads in {1,2,3,8} on real OS threads and num_threads in {2,3} under the deterministic scheduler (seeded PCT / uniform-random schedules, deadlocks reported), shard '
         'counts 1..5 (via make(shard=) and via data_source.shard) + merge_states, and run_pipeline_interleaved in process (two '
         'groupings); plus directed cases every run: (a) a read-modify-write aggregate (update pre-empted between read and write: scheduler yield point / 1 ms sleep) in an UPSTREAM stage with num_threads 2,3,8 downstream on OS threads and 6 (thorough 30) seeded schedules per case under the deterministic scheduler; (b) aggregations in 2-3 named stages with the shard states handed to merge_states as list / generator / iterator, with and without strict_states_cnt, by the plain and the AGGREGATE-mode runner. non-trivial = at least 2 input elements, at least 2 items, and some strategy other than the baseline ran '
-        'without error; distinct = distinct canonical case JSON')
+        'without error; distinct = distinct canonical case JSON.  Round 7 families (lib_c03x): SIZES — for every integer constant b '
+        'read off the source at run time the stream lengths 0, 1, 2, b-1, b, b+1 and 2*max+3, each through q_iter / q_batch '
+        '(IteratorQueue pre-filled = producer completely ahead; also bounded queues with a parked producer, num_steps, small '
+        'explicit max_batch_size), the interleaved runner with 2 and 3 stages (downstream gated on an event until the upstream '
+        'source is exhausted; default unbounded and RunnerResource(buffer_size=b) queues) and num_threads 1,2,3,8 (consumer '
+        'starts after the queue bound 3t was filled); enforced: every strategy meets a stream longer than every constant, and '
+        'an interleaved run whose upstream really was ahead by more than every constant.  SLICED — C02-format pipelines '
+        '(MeanAndVariance / Mean / Counter / a 2-output MergeableMetric; default, cross, within_values, fan-out slicers; data '
+        'sorted by the slice feature or mixed) x any partition of the batches into 1..5 shards (consecutive, round robin, '
+        'shuffled, empty shards, make(shard=) / data_source.shard) x merge by ChainedRunner / TransformRunner / AGGREGATE runner '
+        '/ two aggregating stages x states as list / generator / iterator x strict_states_cnt x batches as list / one-shot '
+        'iterator; enforced classes: key absent from the first / a middle / the last shard, disjoint key sets, empty (first) shard.  '
+        'POOL (harness/lib_c16x.py, own process) — the same sliced pipelines through orchestrate.sharded_pipelines_as_iterator over a '
+        'WorkerPool of 1..3 fakecourier workers, 1..6 shards (merge of a generator of states with strict_states_cnt on the master thread): '
+        '6 pipelines per quick run, exactly one AggregateResult, same oracle and model')
 
 TIMEOUT = float(os.environ.get('C03_TIMEOUT', '20'))
 
@@ -263,9 +296,25 @@ def gen_cases(ctx):
       if has_rebatch(case):
         ctx.count('class', 're-batching pipeline')
       yield case
-  yield from counted(ctx.corpus())
+  def fam_counted(it):
+    for case in it:
+      {'sizes': X.sz_counts, 'sliced': X.sl_counts, 'pool': X.pool_counts}[case['fam']](ctx, case)
+      yield case
+  corpus = ctx.corpus()
+  yield from counted(c for c in corpus if not c.get('fam'))
+  yield from fam_counted(c for c in corpus if c.get('fam'))
   yield from counted(gen_directed(ctx))
-  yield from counted(gen_random(ctx))
+  # the families are dealt between the random cases (long streams must not sit in one chunk of the pool)
+  fams = X.gen_sliced(ctx) + X.gen_sizes(ctx)
+  ctx.rng.shuffle(fams)
+  fams = X.gen_pool(ctx) + fams          # the worker-pool case first: its process starts early
+  fams = iter(fam_counted(fams))
+  for case in counted(gen_random(ctx)):
+    yield case
+    nxt = next(fams, None)
+    if nxt is not None:
+      yield nxt
+  yield from fams
 
 
 def extra(ctx):
@@ -277,6 +326,16 @@ def extra(ctx):
           'class': ['re-batching pipeline', 'two aggregating stages, states as generator/iterator',
                     'upstream aggregate, downstream threads (threads)', 'upstream aggregate, downstream threads (sched)'],
           'merge_states': ['list/default', 'gen/default', 'iter/default', 'gen+strict/default', 'gen/aggregate']}
+  X.deque_selfcheck(ctx)
+  need.update(X.SL_REQUIRED)
+  need['sizes:deque-selfcheck'] = ['bounded cache smaller than a refill']
+  need['sizes:longer-than-every-bound'] = ['q_iter', 'q_batch', 'interleaved', 'threads']
+  need['sizes:strategy'] = ['q_iter', 'q_batch', 'interleaved', 'threads', 'q_iter:bounded', 'interleaved:bounded']
+  for k, v in _OBS_COV.items():          # coverage that is only known after the runs (collected by nontrivial())
+    ctx.hist.setdefault('sizes:observed', {})[k] = v
+  ctx.hist['sizes:constants'] = {str(k): len(v) for k, v in X.constants().items()}
+  need['sizes:observed'] = ['interleaved: upstream ahead of its consumer by more than every constant',
+                            'queue: producer finished before the consumer started, stream longer than every constant']
   missing = [f'{k}:{v}' for k, vs in need.items() for v in vs if v not in ctx.hist.get(k, {})]
   if missing:
     raise InfraError(f'generator missed promised classes: {missing}')
@@ -285,6 +344,19 @@ def extra(ctx):
 # ------------------------------------------------------------------ implementation side
 
 _HANGS = 0
+_OBS_COV = {}
+
+
+def run_fam(case):
+  """a case of a round-7 family: one request to the child process (hard timeout)"""
+  global _HANGS
+  if case['fam'] == 'pool':
+    from harness import lib_c16x
+    return lib_c16x.run(case['items'], timeout=TIMEOUT)
+  o = L.child().run(case, case['strat'], TIMEOUT if _HANGS == 0 else min(TIMEOUT, 5.0))
+  if o.get('hang'):
+    _HANGS += 1
+  return o
 
 
 def run_impl(case):
@@ -292,6 +364,8 @@ def run_impl(case):
   worker process has seen 3 hangs the verdict is settled, so further strategies that use OS threads are not waited
   for again ({"skipped": true}) — a broken tree is reported in minutes, not suffered for hours."""
   global _HANGS
+  if case.get('fam'):
+    return run_fam(case)
   ch = L.child()
   core = {k: case[k] for k in ('kind', 'data', 'items', 'src')}
   out = []
@@ -393,7 +467,17 @@ def failures(case, obs):
   return out
 
 
+def fam_oracle(case, o):
+  if case['fam'] == 'pool':
+    return X.pool_oracle(case, o)
+  if o.get('err') == 'ChildDied':
+    return f"[{case['fam']}] the process running the strategy died"
+  return X.sz_oracle(case, o) if case['fam'] == 'sizes' else X.sl_oracle(case, o)
+
+
 def oracle(case, obs):
+  if case.get('fam'):
+    return fam_oracle(case, obs)
   fs = failures(case, obs)
   if not fs:
     return None
@@ -416,7 +500,28 @@ def finding(case, what):
   return classify(case, st, m.group(4))
 
 
+def fam_nontrivial(case, o):
+  if case['fam'] == 'pool':
+    return any((x.get('merged') or {}).get('err') is None and len((x.get('merged') or {}).get('result', [])) >= 3 for x in o)
+  if case['fam'] == 'sizes':
+    big = max(X.constants() or [0])
+    ob = o.get('obs') or {}
+    st = case['strat']
+    if ob.get('err') is None and case['n'] > big and not st.get('buf'):
+      if st['s'] == 'interleaved' and (ob.get('ahead') or 0) > big:
+        k = 'interleaved: upstream ahead of its consumer by more than every constant'
+        _OBS_COV[k] = _OBS_COV.get(k, 0) + 1
+      if st['s'] in ('q_iter', 'q_batch') and ob.get('ahead') == case['n']:
+        k = 'queue: producer finished before the consumer started, stream longer than every constant'
+        _OBS_COV[k] = _OBS_COV.get(k, 0) + 1
+    return case['n'] >= 2 and ob.get('err') is None
+  m = o.get('merged') or {}
+  return m.get('err') is None and len(case['parts'] or [0, 0]) >= 2 and len(m.get('result', [])) >= 3
+
+
 def nontrivial(case, obs):
+  if case.get('fam'):
+    return fam_nontrivial(case, obs)
   return (len(case['data']) >= 2 and len(case['items']) >= 2 and
           any(o.get('err') is None and not o.get('hang') and not o.get('skipped') for o in obs[1:]))
 
@@ -424,6 +529,12 @@ def nontrivial(case, obs):
 # ------------------------------------------------------------------ model side
 
 def model_requests(case):
+  if case.get('fam') == 'sizes':
+    return X.sz_model_requests(case, None)
+  if case.get('fam') == 'sliced':
+    return X.sl_model_requests(case)
+  if case.get('fam') == 'pool':
+    return X.pool_model_requests(case)
   width = 2 if case['kind'] == 'dict' else 1
   by_cuts = {}
   for st in case['strategies']:
@@ -455,6 +566,8 @@ def model_aggs(case, lst):
 
 
 def model_obs(case, resps):
+  if case.get('fam'):
+    return dict(fam=case['fam'], case=case, resps=resps)
   order = []
   for st in case['strategies']:
     if tuple(st['cuts']) not in order:
@@ -492,6 +605,14 @@ def model_obs(case, resps):
 
 
 def compare(impl_obs, mobs):
+  if isinstance(mobs, dict) and mobs.get('fam'):
+    if mobs['fam'] == 'pool':
+      return X.pool_compare(mobs['case'], impl_obs, mobs['resps'])
+    if impl_obs.get('err') == 'ChildDied':
+      return None
+    if mobs['fam'] == 'sizes':
+      return X.sz_compare(mobs['case'], impl_obs, mobs['resps'][0])
+    return X.sl_compare(mobs['case'], impl_obs, mobs['resps'])
   for i, (o, m) in enumerate(zip(impl_obs, mobs)):
     if o.get('hang') or o.get('skipped') or (o.get('err') and o.get('phase') == 'run'):
       continue            # run-time failures are the oracle's business (error paths are not modelled here)
@@ -516,7 +637,19 @@ def compare(impl_obs, mobs):
 
 # ------------------------------------------------------------------ search helpers
 
+class _RngCtx:
+  quick = True
+
+  def __init__(self, rng):
+    self.rng = rng
+
+
 def neighbours(case, rng):
+  if case.get('fam'):
+    yield from (X.gen_sizes(_RngCtx(rng)) if case['fam'] == 'sizes' else X.gen_sliced(_RngCtx(rng)))
+    return
+  # a disagreement in the grammar family may have its failing input in a round-7 family
+  yield from X.gen_sliced(_RngCtx(rng))[:40]
   for _ in range(150):
     kind = rng.choice(['dict', 'scalar'])
     items = gen_items(rng, kind)
@@ -537,7 +670,55 @@ def shrink(case, fails0):
     return None
 
 
+def _shrink_fam(case, fails0):
+  cur = json.loads(json.dumps(case))
+  if case['fam'] == 'pool':
+    for item in cur['items']:              # one failing item is enough
+      c = dict(fam='pool', items=[item])
+      if fails0(c) is not None:
+        return c
+    return cur
+  if case['fam'] == 'sizes':
+    # the smallest boundary length that still fails with this strategy
+    for n in X.size_points(X.constants()):
+      if n >= cur['n']:
+        break
+      c = dict(cur, n=n)
+      if c['strat'].get('steps') is not None:
+        c['strat'] = dict(c['strat'], steps=min(c['strat']['steps'], n))
+      if fails0(c) is not None:
+        return c
+    return cur
+  changed = True
+  while changed:
+    changed = False
+    sub = cur['sub']
+    for i in range(len(sub['batches'])):            # drop a batch (and its index from the partition)
+      c = json.loads(json.dumps(cur))
+      del c['sub']['batches'][i]
+      if c.get('parts') is not None:
+        c['parts'] = [[j - (j > i) for j in p if j != i] for p in c['parts']]
+      if fails0(c) is not None:
+        cur, changed = c, True
+        break
+    if changed:
+      continue
+    for key, keep in (('aggs', 1), ('slicers', 1)):
+      if len(cur['sub'][key]) > keep:
+        for i in range(len(cur['sub'][key])):
+          c = json.loads(json.dumps(cur))
+          del c['sub'][key][i]
+          if fails0(c) is not None:
+            cur, changed = c, True
+            break
+      if changed:
+        break
+  return cur
+
+
 def _shrink(case, fails0):
+  if case.get('fam'):
+    return _shrink_fam(case, fails0)
   first = fails0(case)
   want = finding(case, first) if first else None
   def fails(c):
